@@ -276,7 +276,12 @@ type replayCase struct {
 	raw   []byte // input not yet hex-encoded (the enumeration buffer is reused: encoded when the case is stored)
 }
 
-func (c replayCase) weight() (int, string) { return len(c.Input) + c.Index*1000, c.Type + c.Input }
+func (c replayCase) weight() (int, string) {
+	if c.Part == "stream" { // shortest operation sequence first, then the shortest input
+		return len(c.Type)*100000 + len(c.Input), c.Type + c.Input
+	}
+	return len(c.Input) + c.Index*1000, c.Type + c.Input
+}
 
 type collector struct {
 	mu sync.Mutex
